@@ -1553,6 +1553,13 @@ Section Total.
   Qed.
 End Total.
 
+Lemma Forall2_In_r {A B} (P : A -> B -> Prop) l1 l2 b :
+  Forall2 P l1 l2 -> In b l2 -> exists a, In a l1 /\ P a b.
+Proof.
+  induction 1 as [|x y l1 l2 H F IH]; intros []; [subst; exists x; split; [left; reflexivity | exact H]|].
+  destruct (IH H0) as (a & Ha & Pa). exists a. split; [right; exact Ha | exact Pa].
+Qed.
+
 (* a successful encoding (with or without weights) shows the premises of encode_layout_total *)
 Lemma encode_layout_premises enc nc n bd do_w biases qs offs t :
   encode_layout enc nc n bd do_w biases qs offs = Some t -> strictly_increasing offs ->
@@ -1561,8 +1568,8 @@ Lemma encode_layout_premises enc nc n bd do_w biases qs offs t :
 Proof.
   intros E SI. destruct (layout_spec _ _ _ _ _ _ _ _ _ E SI) as (F & _ & _ & _ & Hp & Hl).
   split; [exact Hl|]. split; [exact Hp|].
-  intros sec Hsec. apply Forall2_flip in F.
-  destruct (Forall2_In_l _ _ _ _ F Hsec) as (r & _ & (_ & _ & _ & _ & _ & _ & _ & (ss & S1 & _) & _)). congruence.
+  intros sec Hsec.
+  destruct (Forall2_In_r _ _ _ _ F Hsec) as (r & _ & (_ & _ & _ & _ & _ & _ & _ & (ss & S1 & _) & _)). congruence.
 Qed.
 
 (* ================================================================== CompressedWeightCache *)
@@ -1661,6 +1668,8 @@ Qed.
 
 Section CacheProofs.
   Variable codec : wparams -> Z -> Z -> Z -> Z -> list Z.
+  (* the only fact used about the weight codec (C07's subject): the stream length is a multiple of 16 *)
+  Hypothesis codec_mult16 : forall w c d l b, zlen (codec w c d l b) mod 16 = 0.
 
   Definition wf_request (q : request) : Prop := strictly_increasing (wp_slices (q_wp q)).
 
@@ -1719,7 +1728,7 @@ Section CacheProofs.
     cache_inv c seen -> key_determines_inputs (q :: seen) -> wf_request q ->
     respond codec c q = Some (c', r) ->
     cache_inv c' (q :: seen) /\
-    forall tf, fresh codec q = Some tf -> effective r = effective tf.
+    exists tf, fresh codec q = Some tf /\ effective r = effective tf.
   Proof.
     intros Inv KD WF. unfold respond.
     destruct (cache_get c (wkey_of q)) as [e|] eqn:Eg.
@@ -1731,13 +1740,16 @@ Section CacheProofs.
       + intro E. inversion E. subst c' r. split.
         * intros e0 H0. destruct (Inv e0 H0) as (q0 & A & B). exists q0. split; [right; exact A | exact B].
         * apply skey_eqb_eq in Es. destruct (Hsc ltac:(congruence)) as [Hb Hq].
-          intros tf Hf. unfold fresh in Hf. rewrite (encode_req_ext q q' true Hwp Hb Hq), Henc in Hf.
-          inversion Hf. reflexivity.
+          exists (e_tensor e, None). split; [|reflexivity].
+          unfold fresh. rewrite (encode_req_ext q q' true Hwp Hb Hq), Henc. reflexivity.
       + destruct (encode_req codec q false) as [ts|] eqn:Ets; [|discriminate].
         intro E. inversion E. subst c' r. split.
         * intros e0 H0. destruct (Inv e0 H0) as (q0 & A & B). exists q0. split; [right; exact A | exact B].
-        * intros tf Hf. unfold fresh in Hf. destruct (encode_req codec q true) as [t|] eqn:Et; [|discriminate].
-          inversion Hf. subst tf.
+        * assert (Hex : exists t, encode_req codec q true = Some t).
+          { unfold encode_req in Ets |- *.
+            destruct (encode_layout_premises _ _ _ _ _ _ _ _ _ Ets WF) as (P1 & P2 & P3).
+            apply encode_layout_total; try assumption. intros _. apply codec_mult16. }
+          destruct Hex as (t & Et). exists (t, None). split; [unfold fresh; rewrite Et; reflexivity|].
           rewrite (effective_scale_only q' q (e_tensor e) ts Henc Ets (eq_sym Hwp) WF).
           rewrite (effective_fresh q t Et WF).
           apply map_ext. intro sec. unfold spec_entry. rewrite Hwp. reflexivity.
@@ -1746,13 +1758,13 @@ Section CacheProofs.
       + intros e0 H0. apply cache_set_In in H0. destruct H0 as [->|H0].
         * exists q. cbn [e_key e_tensor e_scc]. repeat split; [left; reflexivity | exact Et].
         * destruct (Inv e0 H0) as (q0 & A & B). exists q0. split; [right; exact A | exact B].
-      + intros tf Hf. unfold fresh in Hf. rewrite Et in Hf. inversion Hf. reflexivity.
+      + exists (t, None). split; [unfold fresh; rewrite Et; reflexivity | reflexivity].
   Qed.
 
   Lemma run_sound h : forall c seen resps,
     cache_inv c seen -> key_determines_inputs (rev h ++ seen) -> Forall wf_request h ->
     run codec c h = Some resps ->
-    Forall2 (fun q r => forall tf, fresh codec q = Some tf -> effective r = effective tf) h resps.
+    Forall2 (fun q r => exists tf, fresh codec q = Some tf /\ effective r = effective tf) h resps.
   Proof.
     induction h as [|q h IH]; intros c seen resps Inv KD WF; cbn [run].
     - intro E. inversion E. constructor.
@@ -1771,7 +1783,7 @@ Section CacheProofs.
      same scale bytes and weight bytes as a fresh encoding of that request *)
   Theorem cache_reuse_sound_lemma h resps :
     key_determines_inputs h -> Forall wf_request h -> run codec [] h = Some resps ->
-    Forall2 (fun q r => forall tf, fresh codec q = Some tf -> effective r = effective tf) h resps.
+    Forall2 (fun q r => exists tf, fresh codec q = Some tf /\ effective r = effective tf) h resps.
   Proof.
     intros KD WF E. apply (run_sound h [] [] resps); try assumption.
     - intros e [].
@@ -1812,15 +1824,14 @@ Lemma cache_reuse_refuted_lemma :
   exists (codec : wparams -> Z -> Z -> Z -> Z -> list Z) (h : list request) resps,
     (forall w c d l b, zlen (codec w c d l b) mod 16 = 0) /\ Forall wf_request h /\
     run codec [] h = Some resps /\
-    ~ Forall2 (fun q r => forall tf, fresh codec q = Some tf -> effective r = effective tf) h resps.
+    ~ Forall2 (fun q r => exists tf, fresh codec q = Some tf /\ effective r = effective tf) h resps.
 Proof.
   exists bits_codec, [q0; q_bits].
   destruct (run bits_codec [] [q0; q_bits]) as [resps|] eqn:E; [|vm_compute in E; discriminate].
   exists resps. split; [intros; reflexivity|]. split; [repeat constructor; vm_compute; lia|]. split; [reflexivity|].
   intro F. vm_compute in E. inversion E. subst resps. clear E.
   inversion F as [|? ? ? ? _ F1]; subst. inversion F1 as [|? ? ? ? H2 _]; subst.
-  destruct (fresh bits_codec q_bits) as [tf|] eqn:Ef; [|vm_compute in Ef; discriminate].
-  specialize (H2 tf eq_refl). vm_compute in Ef. inversion Ef. subst tf. vm_compute in H2. discriminate.
+  destruct H2 as (tf & Ef & H2). vm_compute in Ef. inversion Ef. subst tf. vm_compute in H2. discriminate.
 Qed.
 
 (* ================================================================== satisfiable instances *)
